@@ -393,17 +393,21 @@ func checkC12(P *Prog, r *Result) {
 				}
 			}
 		})
-		// the preprocess call's error must be tested
+		// the preprocess call's error must be tested (in the node function or the helper that makes the call)
 		errTested := false
-		eachInstr(fn, func(_ *ssa.BasicBlock, _ int, in ssa.Instruction) {
-			if P.callbackRole(callOf(in)) == "preprocess" {
-				if c, ok := in.(*ssa.Call); ok {
-					if okE, _ := errResultGuardsIssue(P, c); okE {
-						errTested = true
+		for _, u := range P.nodeUnits(fn) {
+			u.with(func() {
+				eachInstr(u.fn, func(_ *ssa.BasicBlock, _ int, in ssa.Instruction) {
+					if P.callbackRole(callOf(in)) == "preprocess" {
+						if c, ok := in.(*ssa.Call); ok {
+							if okE, _ := errResultGuardsIssue(P, c); okE {
+								errTested = true
+							}
+						}
 					}
-				}
-			}
-		})
+				})
+			})
+		}
 		if !errTested {
 			bad = append(bad, "the error returned by the Preprocess function is not turned into an issue")
 		}
